@@ -43,7 +43,7 @@ PROPS["C08"] = {
     "claimed": False,
     "level_text": "tbd", "level_note": "tbd",
     "runs": [
-        R("fragmented", "pkg/format/rtpfragmented", "pkg/format/rtpfragmented", ["ZzC08FragmentedHist"], params={"K": 2}),
+        R("klv", "pkg/format/rtpklv", "pkg/format/rtpklv", ["ZzC08KLVHist", "ZzC08KLVInd"], params={"K": 2, "P": 18}),
     ],
 }
 
